@@ -461,6 +461,12 @@ func replay(sub string, raw json.RawMessage) ([]h.Failure, error) {
 			return nil, err
 		}
 		return checkReExecution(c.Src), nil
+	case "requests":
+		var c reqSeqCase
+		if err := json.Unmarshal(raw, &c); err != nil {
+			return nil, err
+		}
+		return checkRequestSequence(c), nil
 	case "sequence":
 		var c seqCase
 		if err := json.Unmarshal(raw, &c); err != nil {
